@@ -197,8 +197,9 @@ def r_viz(ctx):
             (c, bb, t) = ecl[0]
             a = [c.origin.operand(x, c.term_point(bb)) for x in t['args']]
             ep = lambda x, f: M.is_field(x, f, 'Edge') and M.is_param(x[1]) and x[1][1] == c.name
-            good = M.is_field(a[0], '0') and ep(a[0][1], 'from') and M.is_field(a[1], '0') and ep(a[1][1], 'to') and ep(a[2], 'decision') and ep(a[3], 'cost') and \
-                a[0][1][1] == a[1][1][1] == a[2][1] == a[3][1]
+            un0 = lambda x: x[1] if M.is_field(x, '0') else x          # from / to as ids (edge.from) or as plain indices (edge.from.0)
+            good = ep(un0(a[0]), 'from') and ep(un0(a[1]), 'to') and ep(a[2], 'decision') and ep(a[3], 'cost') and \
+                un0(a[0])[1] == un0(a[1])[1] == a[2][1] == a[3][1]
             ctx.check(good, 'R20.c', tag + '/edge-fields', c, c.loc(bb), 'edge(from, to, decision, cost) receives the four fields of one Edge value', 'edge() receives (%s)' % ', '.join(M.show(x) for x in a[:4]))
             idp = ('param', eo.name, 1, 'id')
             over = _foreach_over(ctx, eo, c, None) if c.kind == 'closure' else False
